@@ -4,7 +4,7 @@
 (* (in-process dispatch / pint binary): the blocks of the configuration    *)
 (* and, for every command x state x block, which corpus rules received     *)
 (* the block's marker problem from the real code ('1' / '0' per rule).     *)
-(*   verdict (VIOL):  observed \in DocOutcomes(block, rule, cmd)           *)
+(*   verdict (VIOL):  observed = DocApplies(block, rule, cmd)               *)
 (*   binding (DRIFT): observed = ImplApplies(block, rule, cmd)             *)
 (* Records are independent decisions, so every record is an initial state  *)
 (* and TLC judges them in parallel; the driver checks that every record    *)
